@@ -32,7 +32,7 @@ claim("C19", "exploration", "differential runtime monitor: the same histories on
 claim("C20", "exploration", "differential runtime monitor across fresh processes with perturbed address-space layout, environment and allocator behaviour; byte comparison of transcripts",
       "Transcripts contain ids, return values and the iteration order of every public iterator and private index copy; any dependence on addresses/hash seeds/environment shows as a byte difference.", MODEL_NOTE, "§2 C20")
 claim("C17", "exploration", "runtime monitor on generated model theories: inheritance closure on the dump, closedness under explicit inheritance rules, equality with the reference free model, metamorphic timing variants (morphisms before/after facts and closes), and a mechanism monitor on private `_all` index copies at every condition evaluation",
-      "Model theories (one model with member predicates, global rules over them, constants naming models and morphisms, dom/cod asserted or rule-derived) are compiled by the real compiler; histories that differ only in when the morphism diagram, the facts and the closes come must all close to the reference free model.", MODEL_NOTE + "; member relations over global types only (member types are not generated); acyclic morphism diagrams only (close() rejects cycles by design)", "§2 C17")
+      "Model theories (one model with member predicates, global rules over them, constants naming models and morphisms, dom/cod asserted or rule-derived) are compiled by the real compiler; histories that differ only in when the morphism diagram, the facts and the closes come must all close to the reference free model.", MODEL_NOTE + "; two theory families: member predicates over global types with generated rules, and a member type with member predicates/functions, morphism application and a pool of hand-written rules; one model per program; acyclic morphism diagrams only (close() rejects cycles by design)", "§2 C17")
 RT_NOTE = "trusted base: std BTree collections as reference, the monitor harness in /verif/rt, Miri's tree-borrows model for the UB part; executions observed, nothing proved"
 claim("C08", "exploration", "differential runtime monitor (reference model: BTreeSet) on clone families, native + Miri tree-borrows, plus bounded exhaustive op sequences",
       "Every operation of PrefixTree0..9 is executed on the real runtime and compared online with a BTreeSet shadow on every live clone (iteration order, emptiness, every prefix lookup, recursively).", RT_NOTE, "§2 C08", "vf-rt")
